@@ -1,6 +1,6 @@
 (** C14 — proofs about Model/Sections.v: size, header/text split, partial
     slicing, announced leaf size. (The part-path theorem is in SectionsTree.v.) *)
-From Coq Require Import String Ascii List Bool Arith Lia.
+From Coq Require Import String Ascii List Bool Arith NArith Lia.
 From Raven Require Import Base.GoStr Base.GoStrFacts Model.Sections Spec.Attrs.
 Import ListNotations.
 
@@ -162,3 +162,34 @@ Proof. vm_compute. reflexivity. Qed.
 Example old_rewrap_announced_another_size :
   length (strip2 (old_written_content true w_b64)) = 122 /\ length w_b64 = 120.
 Proof. split; vm_compute; reflexivity. Qed.
+
+(** regression record (seeded change C14-3): a slice that counts UTF-8
+    CHARACTERS (what SQLite's substr does on a TEXT value) is not the octet
+    slice <o.n> as soon as a 2-octet sequence is involved.  Stand-alone
+    definition; the model's contents are octet strings ([str]) and
+    [partial_cut] counts octets. *)
+Definition is_cont (c : ascii) : bool := ((128 <=? N_of_ascii c) && (N_of_ascii c <=? 191))%N.
+Fixpoint drop_conts (s : str) : str :=
+  match s with [] => [] | c :: s' => if is_cont c then drop_conts s' else s end.
+Fixpoint skip_chars (k : nat) (s : str) : str :=
+  match k, s with
+  | O, _ => s
+  | S k', [] => []
+  | S k', _ :: s' => skip_chars k' (drop_conts s')
+  end.
+Fixpoint take_chars (k : nat) (s : str) : str :=
+  match k, s with
+  | O, _ => []
+  | S k', [] => []
+  | S k', c :: s' =>
+      let rest := drop_conts s' in
+      c :: firstn (length s' - length rest) s' ++ take_chars k' rest
+  end.
+Definition char_slice (s : str) (o n : nat) : str := take_chars n (skip_chars o s).
+
+Definition w_e_acute_a : str := bs [195; 169; 97]%nat.     (* U+00E9 as C3 A9, then "a" *)
+
+Example char_slice_is_not_the_octet_slice :
+  char_slice w_e_acute_a 1 1 = bs [97]%nat /\ slice_spec w_e_acute_a 1 1 = bs [169]%nat /\
+  char_slice w_e_acute_a 0 1 = bs [195; 169]%nat /\ slice_spec w_e_acute_a 0 1 = bs [195]%nat.
+Proof. repeat split; vm_compute; reflexivity. Qed.
